@@ -894,19 +894,24 @@ class tensor:
             cnt = sum(factorial(len(x)) for x in grps)
             all_diffs = np.zeros((cnt, 1))
             all_perms = np.zeros((cnt, n))
+            p_idx = 0
             for a_group in grps:
                 # Compute the permutations for this group of symmetries
-                for p_idx, perm in enumerate(permutations(a_group)):
-                    all_perms[p_idx, :] = perm
+                for perm in permutations(a_group):
+                    # Permute the modes of this group only (one row per permutation)
+                    order = np.arange(n)
+                    order[np.array(a_group)] = perm
+                    all_perms[p_idx, :] = order
 
                     # Do the permutation and record the difference.
-                    Y = self.permute(np.array(perm))
+                    Y = self.permute(order)
                     if np.array_equal(self.data, Y.data):
                         all_diffs[p_idx] = 0
                     else:
                         all_diffs[p_idx] = np.max(
                             np.abs(self.data.ravel() - Y.data.ravel())
                         )
+                    p_idx += 1
 
             if return_details is False:
                 return bool((all_diffs == 0).all())
